@@ -294,7 +294,7 @@ func (q *vfC13Query) execute(ctx context.Context, conn *Conn) *Iter {
 	if r.free && !dead {
 		outs := r.cfg.outsFree()
 		class = outs[r.rng.Intn(len(outs))]
-		if r.rng.Intn(3) == 0 {
+		if r.rng.Intn(5) == 0 {
 			class = "ok"
 		}
 		delay = time.Duration(r.rng.Int63n(int64(r.maxDelay) + 1))
@@ -818,9 +818,12 @@ func (r *vfC13Run) begin(id int, mode string) vfC13Begin {
 
 func vfC13Free(id int, seed int64) (sum vfC13Summary, begin vfC13Begin, log []vfC13Ev) {
 	rng := rand.New(rand.NewSource(seed))
-	kinds := []string{"ok", "ok", "ok", "noconn", "nopool", "down"}
+	kinds := []string{"ok", "ok", "ok", "ok", "ok", "ok", "noconn", "nopool", "down"}
 	cfg := vfC13Cfg{K: rng.Intn(3), Idem: rng.Intn(4) != 0, Allow: []int{}, Hosts: []string{}}
-	nh := rng.Intn(5)
+	nh := 1 + rng.Intn(5)
+	if rng.Intn(12) == 0 {
+		nh = 0
+	}
 	for i := 0; i < nh; i++ {
 		cfg.Hosts = append(cfg.Hosts, kinds[rng.Intn(len(kinds))])
 	}
@@ -1008,7 +1011,7 @@ func TestVfC13Free(t *testing.T) {
 		go func(i int) {
 			defer wg.Done()
 			defer func() { <-sem }()
-			sum, begin, log := vfC13Free(base+i, seed*1000003+int64(i))
+			sum, begin, log := vfC13Free(base+i+1, seed*1000003+int64(i))
 			b, _ := json.Marshal(sum)
 			wmu.Lock()
 			vfC13Write(w, begin, log)
